@@ -393,7 +393,7 @@ func Build(p Params) (*World, error) {
 	for _, q := range w.Queries {
 		reach = math.Max(reach, GreatCircle(clat, clon, q.LatF, q.LonF))
 	}
-	farMin := 4*reach + 5000
+	farMin := 5*reach + 5000
 	w.FarLB = make([]int64, nq)
 	lb := make([]float64, nq)
 	for i := range lb {
